@@ -20,6 +20,11 @@ func pfxFields(b mp4.Box) string {
 		return fmt.Sprintf("cnt:%d:%x:%d:[%s]", x.Version, x.Flags, x.TrackID, kidsDump(x.Children, false))
 	case *mp4.WvttBox:
 		return fmt.Sprintf("wvtt:%d:[%s]", x.DataReferenceIndex, kidsDump(x.Children, true))
+	case *mp4.EvteBox:
+		return fmt.Sprintf("evte:%d:[%s]", x.DataReferenceIndex, kidsDump(x.Children, true))
+	case *mp4.StppBox:
+		return fmt.Sprintf("stpp:%d:%s:%s:%s:[%s]", x.DataReferenceIndex, hexOrDash([]byte(x.Namespace)), hexOrDash([]byte(x.SchemaLocation)),
+			hexOrDash([]byte(x.AuxiliaryMimeTypes)), kidsDump(x.Children, true))
 	case *mp4.AudioSampleEntryBox:
 		return fmt.Sprintf("ase:%d:%d:%d:%d:[%s]", x.DataReferenceIndex, x.ChannelCount, x.SampleSize, x.SampleRate, kidsDump(x.Children, true))
 	}
@@ -90,10 +95,23 @@ func genC3Inputs(r *hx.Rng, n int) [][]byte {
 			return box("trep", u32(uint32(r.Pick(0, 0x01000001))), u32(uint32(r.Pick(1, 2, 0xffffffff))), pfxKids(r, k))
 		case "wvtt":
 			return box("wvtt", make([]byte, 6), u16(uint16(r.Pick(1, 0, 0xffff))), pfxKids(r, k))
+		case "evte":
+			return box("evte", make([]byte, 6), u16(uint16(r.Pick(1, 0, 0xffff))), pfxKids(r, k))
+		case "stpp":
+			str := func() []byte { return []byte([]string{"", "a", "ns:x", "http://www.w3.org/ns/ttml"}[r.Intn(4)]) }
+			body := cat(make([]byte, 6), u16(uint16(r.Pick(1, 2))), str(), []byte{0})
+			switch r.Intn(5) {
+			case 0: // both optional strings missing (legal only without children)
+			case 1: // only the schema location
+				body = cat(body, str(), []byte{0})
+			default:
+				body = cat(body, str(), []byte{0}, str(), []byte{0})
+			}
+			return box("stpp", body, pfxKids(r, k))
 		}
 		return box(name, aseFixed(r), pfxKids(r, k))
 	}
-	names := []string{"dref", "trep", "wvtt", "mp4a", "enca", "ac-3", "ec-3"}
+	names := []string{"dref", "trep", "wvtt", "mp4a", "enca", "ac-3", "ec-3", "evte", "stpp"}
 	for i, nm := range names {
 		for k := 0; k <= 3; k++ {
 			for rep := 0; rep < 2; rep++ {
